@@ -71,8 +71,14 @@ def run(tier, rep):
     if not tlc_ok(r, "BuildOrder"):
         rep.violation(f"model:BuildOrder:{r.violated}", {"trace": r.trace[-2:]})
     orders = r.json_prints("ORDER")
-    if len(orders) != 96:
-        raise ToolError(f"expected 96 (shape, order) pairs, got {len(orders)}")
+    if len(orders) != 79 * 24:
+        raise ToolError(f"expected 1896 (shape, order) pairs (79 dependency DAGs x 24 orders), got {len(orders)}")
+    NAMED = {"A>;B>A;C>B;Main>C": "chain", "A>;B>;C>;Main>ABC": "fanin", "A>;B>A;C>A;Main>BC": "diamond", "A>;B>;C>AB;Main>AC": "vee",
+             "A>;B>;C>B;Main>ABC": "tee"}
+    for o in orders:
+        key = ";".join(f"{q}>{''.join(sorted(o['deps'][q]))}" for q in sorted(o["deps"]))
+        o["shape"] = NAMED.get(key, key)
+    all_shapes = sorted({o["shape"] for o in orders})
     rnd = rng(14)
     if tier == "quick":
         topo = [o for o in orders if o["linkable"]]
@@ -80,8 +86,14 @@ def run(tier, rep):
         rnd.shuffle(topo); rnd.shuffle(non)
         # every shape with two topological orders and two non-topological ones
         sel = []
-        for sh in ("chain", "fanin", "diamond", "vee"):
-            sel += [o for o in topo if o["shape"] == sh][:2] + [o for o in non if o["shape"] == sh][:2]
+        # the named shapes, every shape in which Main imports all three libraries and one of them imports another (a direct import
+        # that is also an indirect one, under every naming), and a seeded sample of the others
+        wide = [sh for sh in all_shapes if sh not in NAMED.values() and sh.endswith("Main>ABC") and sh.count(">;") == 2]
+        others = [sh for sh in all_shapes if sh not in NAMED.values() and sh not in wide]
+        rnd.shuffle(others)
+        for sh in list(NAMED.values()) + wide + others[:6]:
+            k = 2 if sh in NAMED.values() else 1
+            sel += [o for o in topo if o["shape"] == sh][:k] + [o for o in non if o["shape"] == sh][:k]
         orders = sel
     root = workdir("c14")
     whole_cache = {}
